@@ -30,6 +30,8 @@ type Cell struct {
 	Chain   string   `json:"chain,omitempty"`
 	Sender  string   `json:"sender,omitempty"`
 	Des     string   `json:"des,omitempty"`
+	Pay     string   `json:"pay,omitempty"`
+	Adm     string   `json:"adm,omitempty"`
 	H       string   `json:"h,omitempty"`
 	Prod    string   `json:"prod,omitempty"`
 	Breaker bool     `json:"breaker"`
@@ -103,6 +105,11 @@ func (f *Fix) signer(name string) sdk.AccAddress {
 		return sim.ModAddr("vaultV1")
 	case "admin":
 		return f.Admin
+	case "newadmin":
+		return sim.Addr("newadmin")
+	case "default":
+		a, _ := sdk.AccAddressFromBech32(esmtypes.DefaultAdmin[0])
+		return a
 	case "user":
 		return f.Other
 	case "contract":
@@ -208,7 +215,7 @@ func (r *runner) execState(s *sim.Env, root int, cells []Cell) {
 		}
 	}
 	// ---------------- privileged matrix: reference = the contract designated for the variant, on comdex-1
-	isRef := func(c Cell) bool { return c.Chain == "comdex-1" && c.Sender == c.Des }
+	isRef := func(c Cell) bool { return c.Chain == "comdex-1" && c.Sender == c.Des && (c.Pay == "na" || c.Pay == "caller") }
 	sort.SliceStable(priv, func(a, b int) bool { return isRef(priv[a]) && !isRef(priv[b]) })
 	ref = map[string]int{}
 	for _, c := range priv {
@@ -217,23 +224,40 @@ func (r *runner) execState(s *sim.Env, root int, cells []Cell) {
 		// the two variants that move the caller's funds need the caller to own something / the collector to be funded
 		fund(e, sender, coin("uharbor", 100*unit))
 		fundModule(e, "collectorV1", coin("ucmst", 50*unit))
+		var named sdk.AccAddress
+		switch c.Pay {
+		case "caller":
+			named = sender
+		case "designated":
+			named = f.SenderAddr(c.Chain, c.Des)
+		case "third":
+			named = f.LP
+		}
+		if named != nil {
+			fund(e, named, coin("uharbor", 100*unit))
+		}
 		pre := e.Digest()
-		res := f.Dispatch(e, c.Chain, sender, c.V)
+		res := f.Dispatch(e, c.Chain, sender, named, c.V)
 		post := e.Digest()
-		args := map[string]interface{}{"m": c.M, "v": c.V, "chain": c.Chain, "sender": c.Sender, "ref": ref[c.V]}
+		args := map[string]interface{}{"m": c.M, "v": c.V, "chain": c.Chain, "sender": c.Sender, "des": c.Des, "pay": c.Pay, "ref": ref[c.V]}
 		id := r.lg.Add(root, r.run, "Priv", args, rj(res), map[string]interface{}{"pre": pre, "post": post})
 		if isRef(c) {
 			ref[c.V] = id
 			args["ref"] = id
 		}
 	}
+	// kill switch under every state of the admin parameter; the parameter is changed through the params module's real
+	// parameter-change proposal handler (what a passed governance proposal executes)
 	for _, c := range kill {
 		for _, enable := range []bool{true, false} {
 			e := s.Branch()
+			if err := f.SetAdminState(e, c.Adm); err != nil {
+				panic(fmt.Sprintf("admin state %s: %v", c.Adm, err))
+			}
 			pre := e.Digest()
 			res := e.Deliver(esmtypes.NewMsgKillRequest(f.signer(c.Sender), esmtypes.KillSwitchParams{AppId: f.AppHarbor, BreakerEnable: enable}))
 			post := e.Digest()
-			r.lg.Add(root, r.run, "Kill", map[string]interface{}{"m": c.M, "sender": c.Sender, "enable": enable}, rj(res), map[string]interface{}{"pre": pre, "post": post})
+			r.lg.Add(root, r.run, "Kill", map[string]interface{}{"m": c.M, "adm": c.Adm, "sender": c.Sender, "enable": enable}, rj(res), map[string]interface{}{"pre": pre, "post": post})
 		}
 	}
 	// ---------------- control matrix: group by (app, breaker, esm) so that the controls are set up once per group
